@@ -139,3 +139,9 @@ class Checker:
             return False
         self.fail(site, "returned %r instead of raising" % (r,))
         return False
+
+
+def fresh_str(s):
+    """an equal string that is a different object from any literal / interned one (options read from a file, built at run time,
+    np.str_ ...): option strings must be compared by value"""
+    return (s + " ")[:-1] if isinstance(s, str) else s
